@@ -345,11 +345,18 @@ fn transition_events_body(old: ClientImplState, requested: ClientImplState, desi
     c.desired_state = desired;
     let start = zero_instant() + Duration::from_secs(kani::any::<u32>() as u64);
     c.last_start_connect_time = Some(start);
-    c.last_connack = if connack_ok { Some(ConnackPacket { reason_code: ConnectReasonCode::Success, ..Default::default() }) } else { None };
+    // when the transition does not leave Connected, whatever an EARLIER connection left behind is still there
+    let stale = old != ClientImplState::Connected;
+    c.last_connack = if connack_ok || stale { Some(ConnackPacket { reason_code: ConnectReasonCode::Success, ..Default::default() }) } else { None };
     c.successful_connect_time = if connack_ok { Some(start) } else { None };
     unsafe { CLOCK = Some(start + Duration::from_secs(kani::any::<u16>() as u64)); NET_EVENTS = 0; EV_N = 0; }
     let r = c.transition_to_state(requested);
     assert!(r.is_ok());
+    if requested == ClientImplState::Connecting {
+        // a new attempt starts from a clean slate: the outcome of this attempt must not be judged by an earlier connection's CONNACK
+        assert!(c.last_connack.is_none() && c.last_error.is_none() && c.last_disconnect.is_none() && c.packet_events.is_empty() && c.desired_stop_options.is_none(),
+                "gv: a new connection attempt must forget the previous connection's CONNACK, error and DISCONNECT");
+    }
     let n = unsafe { EV_N };
     let ev = unsafe { EV_KIND };
     // effective target: a reconnect wait that is no longer wanted becomes Stopped; Stopped becomes Shutdown when close was requested
